@@ -1,0 +1,132 @@
+//! C08 facade: `ReadyPipeQueue` / `ReadyPipeSender` and `WaitGroup` driven from outside the crate.
+//!
+//! `schedule_point` is called from the `#[cfg(rzmq_verif)]` lines placed between the atomic
+//! actions of `send` / `try_send` / `try_send_batch` / `pop` / `try_pop` (and before
+//! `notified()` in `WaitGroup::wait`).  Without an installed hook it does nothing.  The harness
+//! installs a hook that parks the calling OS thread until its scheduler hands it the baton.
+//! Nothing here changes what the real code does.
+use crate::runtime::WaitGroup;
+use crate::socket::patterns::{ReadyPipeQueue, ReadyPipeSender};
+use fibre::TrySendError;
+use std::collections::VecDeque;
+use std::future::Future;
+use std::pin::Pin;
+use std::sync::{Arc, RwLock};
+
+// ---------------------------------------------------------------- schedule hook
+
+pub type VHook = Arc<dyn Fn(&'static str) + Send + Sync>;
+static HOOK: RwLock<Option<VHook>> = RwLock::new(None);
+
+/// Install (or clear) the closure run at every schedule point.
+pub fn set_schedule_hook(h: Option<VHook>) {
+  *HOOK.write().unwrap() = h;
+}
+
+/// Called from `#[cfg(rzmq_verif)]` lines inside rzmq. A no-op unless a hook is installed.
+pub fn schedule_point(name: &'static str) {
+  let h = HOOK.read().unwrap().clone();
+  if let Some(h) = h {
+    h(name)
+  }
+}
+
+// ---------------------------------------------------------------- ReadyPipeQueue
+
+/// One real `ReadyPipeQueue<u64>` with pipes `0..caps.len()` registered the way the ingress
+/// engines register them (`register_pipe(id, capacity, drain_delta)`), and the senders handed out
+/// by `register_pipe`.  The observers go through the senders' `Weak` handles, so they never keep
+/// a deregistered slot alive.
+#[derive(Clone)]
+pub struct VQueue {
+  q: Arc<ReadyPipeQueue<u64>>,
+  senders: Arc<Vec<Arc<ReadyPipeSender<u64>>>>,
+}
+
+impl VQueue {
+  pub fn new(ready_capacity: usize, caps: &[usize]) -> Self {
+    let q = Arc::new(ReadyPipeQueue::<u64>::new(ready_capacity));
+    let senders = caps.iter().enumerate().map(|(p, c)| Arc::new(q.register_pipe(p, *c, 0))).collect();
+    VQueue { q, senders: Arc::new(senders) }
+  }
+
+  /// ReadyPipeSender::send — 0 = Ok, 1 = Err(ConnectionClosed), 9 = any other error
+  pub fn send(&self, p: usize, x: u64) -> Pin<Box<dyn Future<Output = u64> + Send>> {
+    let s = self.senders[p].clone();
+    Box::pin(async move {
+      match s.send(x).await {
+        Ok(()) => 0,
+        Err(crate::error::ZmqError::ConnectionClosed) => 1,
+        Err(_) => 9,
+      }
+    })
+  }
+
+  /// ReadyPipeSender::try_send — 0 = Ok, 1 = Closed, 3 = Full, 9 = other
+  pub fn try_send(&self, p: usize, x: u64) -> u64 {
+    match self.senders[p].try_send(x) {
+      Ok(()) => 0,
+      Err(TrySendError::Closed(_)) => 1,
+      Err(TrySendError::Full(_)) => 3,
+      Err(_) => 9,
+    }
+  }
+
+  /// ReadyPipeSender::try_send_batch with weight 1 per item — (returned weight, items left in the deque)
+  pub fn try_send_batch(&self, p: usize, xs: Vec<u64>) -> (u64, Vec<u64>) {
+    let mut dq: VecDeque<u64> = xs.into();
+    let w = self.senders[p].try_send_batch(&mut dq, |_| 1);
+    (w as u64, dq.into_iter().collect())
+  }
+
+  /// ReadyPipeQueue::pop — Some((pipe id, item)) or None on Err
+  pub fn pop(&self) -> Pin<Box<dyn Future<Output = Option<(u64, u64)>> + Send>> {
+    let q = self.q.clone();
+    Box::pin(async move { q.pop().await.ok().map(|(p, x)| (p as u64, x)) })
+  }
+
+  /// ReadyPipeQueue::try_pop
+  pub fn try_pop(&self) -> Option<(u64, u64)> {
+    self.q.try_pop().map(|(p, x)| (p as u64, x))
+  }
+
+  /// ReadyPipeQueue::deregister_pipe
+  pub fn deregister(&self, p: usize) {
+    self.q.deregister_pipe(p);
+  }
+
+  /// (queued_count, reserved_count, channel len) of pipe p; zeros once the slot is gone
+  pub fn observe(&self, p: usize) -> (u64, u64, u64) {
+    let s = &self.senders[p];
+    (s.queued_count() as u64, s.reserved_count() as u64, s.len() as u64)
+  }
+
+  /// number of entries in the ready list
+  pub fn ready_len(&self) -> u64 {
+    self.q.ready_rx.len() as u64
+  }
+}
+
+// ---------------------------------------------------------------- WaitGroup
+
+#[derive(Clone)]
+pub struct VWaitGroup(WaitGroup);
+
+impl VWaitGroup {
+  pub fn new() -> Self {
+    VWaitGroup(WaitGroup::new())
+  }
+  pub fn add(&self, d: usize) {
+    self.0.add(d)
+  }
+  pub fn done(&self) {
+    self.0.done()
+  }
+  pub fn count(&self) -> u64 {
+    self.0.get_count() as u64
+  }
+  pub fn wait(&self) -> Pin<Box<dyn Future<Output = ()> + Send>> {
+    let w = self.0.clone();
+    Box::pin(async move { w.wait().await })
+  }
+}
